@@ -5,8 +5,18 @@ V = os.path.dirname(os.path.dirname(os.path.abspath(__file__)))
 TECH = "bounded model checking of the real C sources with CBMC 6.11 (goto-cc from /repo's tree, SAT), counterexamples and reachability witnesses replayed natively under ASan/UBSan"
 CHECKS = {
  # id: (category, level text, level note, design_ref, technique override)
+ "C01": ("model_checking", "For every enumerated tree shape (2 and 3 layers; per layer main file absent/with content/empty/link to /dev/null, drop-in directory present or not, presence pattern of three candidate names whose byte order differs from numeric and case-insensitive order, names without suffix, dot files; suffix given with/without dot, absent or empty) each entry point returns exactly the reference result for every choice of stored values: consulted sequence, masking, override order, file-not-found.",
+         "tree shapes are concrete per instance (must-have shapes + VERIF_SEED-driven sample; all shapes in thorough for 2 layers); values symbolic; reader replaced by its contract in the CBMC query, real reader+parser in the native replay of every witness; parsing/merging semantics from C02/C03", "5.3, 6/C01", None),
  "C02": ("model_checking", "For each enumerated layout of a conventional file (line kinds, optional blanks, quotes, trailing comments, continuation lines, re-opened sections, repeated keys; every delimiter class and comment set) the real parser returns exactly the expected sections, keys, values and first-definition lookups for every choice of field characters within their grammar class (symbolic).",
          "layouts are concrete per instance (systematic sweep + VERIF_SEED-driven sample); bounds: <= 3 lines / <= 40 bytes per file; expected result constructed with the layout; memory-safety obligations of the same code are C04's", "5.1, 6/C02", None),
+ "C12": ("model_checking", "All six entry points are compared with one reference (consulted sequence with own path and content; fold with masking) on identical tree instances, including the layered read configured with the same two directories and all suffix spellings.",
+         "agreement through the common reference; as C01", "6/C12", None),
+ "C13": ("model_checking", "Generated conventional files with one injected malformed line of each kind at each position: specific error code, file path and 1-based line, NULL out-pointer; n-th consulted file malformed in every entry point aborts with that code and nothing partial; missing file; code/message table complete and distinct.",
+         "layouts concrete, characters symbolic (as C02); as C01 for the layered part", "6/C13", None),
+ "C16": ("model_checking", "Reader harness decides every combination of file owner/group/kind with every combination of active restrictions, required ids and reset; layered-read harness shows every entry point aborts with the restriction's code on the refused file and hands back no content.",
+         "kernel ownership/symlink semantics modelled by lstat attributes", "6/C16", None),
+ "C20": ("model_checking", "CBMC's leak, double-free, use-after-free and invalid-free checks on every early-return path of the six entry points (failure of each kind injected at a chosen consulted file), on the reader's failure paths and on API operation steps; out-pointers NULL / untouched / valid.",
+         "leak tracking is CBMC's (one nondeterministically chosen allocation per run = all allocations); allocation failure out of scope", "6/C20", None),
  "C03": ("model_checking", "For every pair of entry lists within the length bound (all section interleavings incl. re-opened sections, duplicates, empty sides, constructor-made empty objects; keys symbolic) the merge result satisfies each clause of the statement and every array write stays inside base+override entries.",
          "entry counts and section patterns are concrete per instance (all patterns up to A<->B renaming are enumerated as instances), keys symbolic; objects built in the parser's memory shape", "6/C03", None),
  "C10": ("model_checking", "Every read-only API call (8 typed getters, Def getters, extended getter, listings, path and tag queries), with every section/key argument spelling, leaves every byte of an arbitrary valid object unchanged; one step from an arbitrary state, sequences by induction.",
@@ -15,6 +25,8 @@ CHECKS = {
          "the invariant (entries + owned section list + pre-initialised tail) is the trusted inductive hypothesis; universe of 4 sections x 3 keys", "6/C11", None),
  "C04": ("model_checking", "Every CBMC memory-safety/overflow obligation in the parser and the follow-up API calls is discharged for all byte strings within the bound (all 256 byte values, every delimiter class, comment set and option); not a proof beyond the bound.",
          "bounds: file length/lines per instance (see evidence); libc/stdio models in env/; capacity model of strdup/realloc; allocation failure out of scope", "6/C04", None),
+ "C06": ("model_checking", "Reader harness: for every owner/group/link/restriction/callback-verdict combination the callback is consulted exactly once, after the restriction checks and before the file is opened, with the path and data pointer given. Layered-read harness: through each callback entry point the callback sees exactly the consulted sequence in order and one rejection (main file, k-th or masked drop-in) yields the callback-failed code and no content or history.",
+         "as C01; position of the rejected file concrete per instance", "6/C06", None),
  "C08": ("model_checking", "For every value of each numeric type (all bit patterns) and every case variant of the boolean words the set/get pair is exact; decided symbolically, not sampled.",
          "printf/strto* axiomatised by tokens (C11 7.22.1.4, IEEE-754 round trip); write/read half by composition with C07", "6/C08", None),
  "C09": ("model_checking", "For every literal within the digit bounds (decimal near every type limit and beyond 64 bits, octal to 69 bits, hex to 68 bits) the integer getters return the mathematical value or an error; boolean getter decided for every byte string up to the length bound; valueless keys never dereferenced.",
